@@ -86,6 +86,21 @@ def run(ctx, n_random=None):
                     check(q, "setops:%d" % n)
                     union_reqs.append(q)
 
+    # ---- every TOP form (count 0 is falsy in Python; PERCENT / WITH TIES change the entry's shape), alone and as
+    #      either operand of a set operation, bare or parenthesised
+    for n0 in (0, 7):
+        for percent in (False, True):
+            for ties in (False, True):
+                def top_select(i):
+                    s0 = simple_select(i)
+                    s0["top"] = (n0, percent, ties)
+                    return s0
+                check(mk(("chain", ("select", top_select(0)), []), "none"), "top")
+                for op in Q.SETOPS[:2]:
+                    check(mk(("chain", ("select", top_select(0)), [(op, ("select", simple_select(1)))]), "order"), "top")
+                    check(mk(("chain", ("select", simple_select(0)), [(op, ("select", top_select(1)))]), "none"), "top")
+                    check(mk(("chain", ("paren", mk(("chain", ("select", top_select(0)), []), "none")), [(op, ("select", top_select(1)))]), "none"), "top")
+
     # ---- Tie B for to_union_call: the model folds the REAL trees of the operands
     if ctx.driver:
         reqs, metas = [], []
